@@ -4,6 +4,7 @@ The model (Model/Drbg.lean) mirrors src/rand/relic_rand_hashd.c byte for byte; t
 (Spec/HashDrbg.lean) is SP 800-90A §10.1.1 over integers mod 2^440. Both are generic in the hash.
 -/
 import RelicVerif.Lemmas.Drbg
+import RelicVerif.Model.RandInt
 
 namespace Relic.Props.C15
 open Relic.Model.Drbg Relic.Spec
@@ -29,5 +30,37 @@ theorem drbg_refuses (hash : Bytes → Bytes) (x : Ctx) (n : Nat) (hn : n > 6553
 theorem drbg_refuses_empty_seed (hash : Bytes → Bytes) (x : Ctx) :
     step (mcfg hash) x (.seed []) = (x, .err) := by
   simp [step, randSeed]
+
+/-! ### integer sampling (Model/RandInt.lean, executed by the driver over the DRBG model) -/
+section RandInt
+open Relic.Model.RandInt
+
+/-- integers sampled below a bound are always in [1, bound), for every byte source, every state and every number of redraws -/
+theorem bn_rand_mod_range {σ : Type} (draw : σ → Nat → Option (List Nat × σ)) (w cap b : Nat) (hb : 0 < b) (fuel : Nat) (s : σ) (r : Nat)
+    (h : bnRandMod draw w cap b fuel s = some r) : 1 ≤ r ∧ r < b := by
+  induction fuel generalizing s with
+  | zero => simp [bnRandMod] at h
+  | succ n ih =>
+    unfold bnRandMod at h
+    split at h
+    · simp at h
+    split at h
+    · simp at h
+    · next dp s' _ =>
+      simp only at h
+      split at h
+      · exact ih s' h
+      · next hne =>
+        simp only [Option.some.injEq] at h
+        subst h
+        exact ⟨Nat.pos_of_ne_zero hne, Nat.mod_lt _ hb⟩
+
+/-- … and are a deterministic function of the generator state (the model is a function) -/
+theorem bn_rand_mod_deterministic {σ : Type} (draw : σ → Nat → Option (List Nat × σ)) (w cap b fuel : Nat) (s : σ) (r r' : Nat)
+    (h : bnRandMod draw w cap b fuel s = some r) (h' : bnRandMod draw w cap b fuel s = some r') : r = r' := by
+  rw [h] at h'; exact Option.some.inj h'
+
+
+end RandInt
 
 end Relic.Props.C15
